@@ -22,6 +22,22 @@ RULE_TEXT = ("one obligation per (carrier method, carrier field, family) from th
              "method of every carrier impl, and per mutating call site in the setup cone; distinct = distinct rule instances")
 
 
+def _guarded_by_absence(prog, body, bb, callee):
+    """The insert at `bb` is reachable only through the false arm of `if self.has_value::<same T>()`."""
+    bt = prog.bt(body)
+    targs = [a["s"] for a in callee.type_args()]
+    for hb, t in body.normal_calls():
+        hc = Callee(t["func"])
+        if hc.name == "has_value" and hc.self_head == A.WORLD and [a["s"] for a in hc.type_args()] == targs and t["target"] is not None:
+            sw = body.blocks[t["target"]]["term"]
+            if sw["k"] == "switch":
+                arms = dict((v, tgt) for v, tgt in sw["arms"])
+                false_bb = arms.get(0)
+                if false_bb is not None and false_bb != sw["otherwise"] and bt.cfg.dominates(false_bb, bb):
+                    return True
+    return False
+
+
 def noclobber(ctx, report, facts, config):
     rule = "C13.NOCLOBBER"
     prog = ctx.program(facts)
@@ -44,6 +60,12 @@ def noclobber(ctx, report, facts, config):
         report.touched(b, config)
         for bb, t in b.normal_calls():
             c = Callee(t["func"])
+            if c.local and c.self_head == A.WORLD and c.name == "insert" and _guarded_by_absence(prog, b, bb, c):
+                report.ob(rule, "%s->World::insert(if absent)" % b.qname, True,
+                          "World::insert::<T> only on the branch where has_value::<T>() is false", site=b.loc(bb), config=config)
+                n_sites += 1
+                allowed_seen += 1
+                continue
             if c.local and c.self_head == A.WORLD and c.name in forbidden_world:
                 report.ob(rule, "%s->World::%s" % (b.qname, c.name), False,
                           "library setup code reaches World::%s, which can replace or remove an existing resource" % c.name,
